@@ -367,7 +367,7 @@ func (g *sboxGen) event() boxUserEvent {
 			return svc.Name
 		}}
 	case x < 34:
-		kind := vfPick(r, []string{"svc-retype", "svc-policy", "svc-status", "svc-status", "svc-status-clear", "svc-status-swap"})
+		kind := vfPick(r, []string{"svc-retype", "svc-policy", "svc-status", "svc-status", "svc-status-clear", "svc-status-swap", "svc-status-drop-one", "svc-status-dual"})
 		return boxUserEvent{Kind: kind, Apply: func(s *boxStore) string {
 			svc := g.pickSvc(s)
 			if svc == nil {
@@ -390,6 +390,15 @@ func (g *sboxGen) event() boxUserEvent {
 				g.setStatus(svc, g.drawStatus(s, r.Chance(1, 3)))
 			case "svc-status-clear":
 				g.setStatus(svc, nil)
+			case "svc-status-dual":
+				g.setStatus(svc, g.drawStatus(s, true))
+			case "svc-status-drop-one":
+				// a dual-stack service loses one of its two addresses and keeps the other
+				if ing := svc.Status.LoadBalancer.Ingress; len(ing) == 2 {
+					svc.Status.LoadBalancer.Ingress = []v1.LoadBalancerIngress{ing[r.Intn(2)]}
+				} else {
+					g.setStatus(svc, g.drawStatus(s, true))
+				}
 			case "svc-status-swap":
 				ing := svc.Status.LoadBalancer.Ingress
 				if len(ing) == 2 {
@@ -440,7 +449,7 @@ func (g *sboxGen) event() boxUserEvent {
 			return fmt.Sprintf("%s applied=%v", desc, ok)
 		}}
 	case x < 84:
-		kind := vfPick(r, []string{"cfg-l2adv", "cfg-l2adv", "cfg-bgpadv", "cfg-bgpadv", "cfg-peer", "cfg-pool", "cfg-del-l2adv", "cfg-del-bgpadv", "cfg-del-peer"})
+		kind := vfPick(r, []string{"cfg-l2adv", "cfg-l2adv", "cfg-bgpadv", "cfg-bgpadv", "cfg-bgpadv-clone", "cfg-peer", "cfg-pool", "cfg-del-l2adv", "cfg-del-bgpadv", "cfg-del-peer"})
 		return boxUserEvent{Kind: kind, Apply: func(s *boxStore) string {
 			seed := r.U64()
 			ok := g.tryConfig(s, func(t *boxStore) {
@@ -450,6 +459,18 @@ func (g *sboxGen) event() boxUserEvent {
 					t.Put(gg.l2adv(fmt.Sprintf("l2-%d", gg.r.Range(1, 3)), t))
 				case "cfg-bgpadv":
 					t.Put(gg.bgpadv(fmt.Sprintf("bgp-%d", gg.r.Range(1, 3)), t))
+				case "cfg-bgpadv-clone":
+					// a second advertisement producing the same route (same pools, aggregation, local preference,
+					// communities) for another list of peers
+					ks := vfSortedKeys(t.BGPAdvs)
+					if len(ks) == 0 {
+						return
+					}
+					src := t.BGPAdvs[vfPick(gg.r, ks)].DeepCopy()
+					src.Name = fmt.Sprintf("bgp-%d", gg.r.Range(1, 3))
+					src.ResourceVersion = ""
+					src.Spec.Peers = vfPick(gg.r, [][]string{{"peer1"}, {"peer2"}, {"peer3"}, {"peer1", "peer3"}, {"peer2", "peer3"}})
+					t.Put(src)
 				case "cfg-peer":
 					t.Put(gg.peer(gg.r.Range(1, 3)))
 				case "cfg-del-l2adv":
